@@ -87,7 +87,7 @@ def _trunc_worker(args):
 
 
 THEOREMS = (
-    "C17_unclosed", "walk_prefix", "C17_truncation",
+    "readChunks_chunkEnd", "C17_unclosed",
 )
 
 
